@@ -337,16 +337,20 @@ impl Uci {
                 let is_stopped = self.is_stopped.clone();
 
                 let join_handle = std::thread::spawn(move || {
-                    let mut persistent_state_handle = persistent_state.lock().unwrap();
+                    // The shared state is released before the move is announced: once the GUI has
+                    // seen `bestmove` it may send `setoption`, which must find the state free.
+                    let best_move = {
+                        let mut persistent_state_handle = persistent_state.lock().unwrap();
 
-                    let best_move = search::search(
-                        &game,
-                        &mut persistent_state_handle,
-                        &mut time_strategy,
-                        &search_restrictions,
-                        &options,
-                        &mut reporter,
-                    );
+                        search::search(
+                            &game,
+                            &mut persistent_state_handle,
+                            &mut time_strategy,
+                            &search_restrictions,
+                            &options,
+                            &mut reporter,
+                        )
+                    };
 
                     reporter.best_move(&game, best_move);
                     is_stopped.set();
